@@ -75,11 +75,12 @@ def eval_case(case) -> Outcome:
 
 
 def strategy(tier):
-    from .c09 import nested_site
+    from .c09 import nested_site, source_sink_site
 
     mx = 8 if tier == "quick" else 12
     return st.one_of(
         G.gcc_problem(max_rows=12, zones=("P1", "P2")),
+        source_sink_site(tier),
         nested_site(tier),
         G.problem(min_streams=3, max_streams=mx, shape="mixed"),
         G.problem(min_streams=2, max_streams=mx, shape="mixed", multi_zone=True),
